@@ -46,7 +46,15 @@ class Env:
                 return [("joined", v)]          # one argument: elements joined by ';' (re-splits when stored in a list)
             return list(v)                       # unquoted: one argument per element, none if empty
         if any(p[0] == "var" for p in parts):
-            raise Unsupported("mixed literal/reference argument")
+            # text and references mixed ("${out}/*.rst"): one argument, the references replaced by their values (a list value joined by ';');
+            # unquoted, a reference to a list of several elements would split the argument: not supported
+            if not quoted and any(p[0] == "var" and len(self.vars.get(p[1], [])) > 1 for p in parts):
+                raise Unsupported("unquoted argument mixing text and a list reference")
+            zs = [StringVal(p[1]) if p[0] == "lit" else as_arg(("joined", self.vars.get(p[1], []))) for p in parts]
+            r = zs[0]
+            for z in zs[1:]:
+                r = Concat(r, z)
+            return [r]
         return [StringVal(body)]
 
 def flatten(items):
@@ -65,6 +73,8 @@ def as_arg(it):
     return it
 
 
+MUTATING_FILE_SUBCOMMANDS = ("REMOVE", "REMOVE_RECURSE", "WRITE", "APPEND", "TOUCH", "TOUCH_NOCREATE", "RENAME", "COPY", "COPY_FILE", "MAKE_DIRECTORY",
+                             "CREATE_LINK", "CHMOD", "CHMOD_RECURSE", "GENERATE", "CONFIGURE", "INSTALL", "DOWNLOAD", "ARCHIVE_EXTRACT", "ARCHIVE_CREATE")
 FALSE_CONSTANTS = ["", "0", "OFF", "NO", "FALSE", "N", "IGNORE", "NOTFOUND"]
 
 
@@ -194,6 +204,7 @@ def interpret_paths(cmds, fname, actual_args, extra_vars, isdir):
         env.vars["ARGN"] = list(actual_args[len(params):])
         argc = len(actual_args)
         pc = []; calls = []; nd = 0
+        effects = []      # file-system mutations performed by the function itself: (subcommand, [argument terms])
         envlog = []       # what the path assumed about the file system: ("exists", path term, z3 Bool) / ("strings", path term, z3 Bool non-empty, regex or None)
         skip = 0          # depth of disabled if-nesting
         stack = []        # per open if: was it taken?
@@ -249,8 +260,17 @@ def interpret_paths(cmds, fname, actual_args, extra_vars, isdir):
                 break
             elif name == "file" and args and args[0][1] in ("GLOB", "GLOB_RECURSE") and len(args) >= 2:
                 # the file system is environment: the glob result is an arbitrary list -- empty, or some non-empty list
-                nonempty, decisions, nd = decide(Bool("glob_%d_nonempty" % nd), decisions, nd, pc)
+                b_ = Bool("glob_%d_nonempty" % nd)
+                pats = [as_arg(x) for (t, s_) in args[2:] if not (t != CMakeParser.Quoted_argument and s_ in ("FOLLOW_SYMLINKS", "LIST_DIRECTORIES", "RELATIVE", "CONFIGURE_DEPENDS", "true", "false"))
+                        for x in env.expand(t, s_)]
+                envlog.append(("glob", pats[0] if pats else StringVal(""), b_, None))
+                nonempty, decisions, nd = decide(b_, decisions, nd, pc)
                 env.vars[args[1][1]] = [String("glob_%d_first" % nd)] if nonempty else []
+            elif name == "file" and args and args[0][1] in MUTATING_FILE_SUBCOMMANDS:
+                # the function changes the file system itself: recorded (the spec allows no effect but the cminx process)
+                targets = flatten([x for (t, s_) in args[1:] for x in env.expand(t, s_)])
+                if targets:
+                    effects.append((args[0][1], [as_arg(x) for x in targets]))
             elif name == "file" and args and args[0][1] == "STRINGS" and len(args) >= 3:
                 # file(STRINGS <file> <var> [REGEX <re>]): the file's content is environment -- the result is empty or some non-empty list
                 (f_,) = env.expand(*args[1])
@@ -322,7 +342,7 @@ def interpret_paths(cmds, fname, actual_args, extra_vars, isdir):
                     else: opts[mode].append(s_)
                 calls.append((cmd, opts))
             else: raise Unsupported("command " + name)
-        results.append((And(*pc) if pc else BoolVal(True), calls, envlog))
+        results.append((And(*pc) if pc else BoolVal(True), calls, envlog, effects))
     run([])
     return results
 
@@ -379,8 +399,10 @@ def ob_argv(pid, label="C19.a"):
             paths = interpret_paths(cmds, "cminx_gen_rst", [inp, outp] + extra, {"CMINX_EXECUTABLE": [exe]}, lambda x: isdir_f(x))
             d = isdir_f(inp)
             bad = []
-            for (pc, calls, envlog) in paths:
+            for (pc, calls, envlog, effects) in paths:
                 ok = spec_ok(calls[0], exe, inp, outp, extra, d) if len(calls) == 1 else BoolVal(False)
+                if effects:          # the output tree is exactly what the cminx process produces: the function itself touches nothing
+                    ok = BoolVal(False)
                 bad.append(And(pc, Not(ok)))
             s = Solver()
             s.set("timeout", 60000)
@@ -398,12 +420,14 @@ def ob_argv(pid, label="C19.a"):
                 isd = is_true(m.eval(d, model_completion=True))
                 # what the failing path assumed about the file system (EXISTS, file(STRINGS)) is made true for the replay
                 actions = []
-                for (b_, (pc, calls, envlog)) in zip(bad, paths):
+                for (b_, (pc, calls, envlog, effects)) in zip(bad, paths):
                     if is_true(m.eval(b_, model_completion=True)):
                         for ev in envlog:
                             pth = rx.decode_z3_string(m.eval(ev[1], model_completion=True))
                             if ev[0] == "exists":
                                 actions.append(("exists", pth, is_true(m.eval(ev[2], model_completion=True)), None))
+                            elif ev[0] == "glob":
+                                actions.append(("glob", pth, is_true(m.eval(ev[2], model_completion=True)), None))
                             else:
                                 actions.append(("strings", pth, is_true(m.eval(ev[2], model_completion=True)), ev[3]))
                         break
@@ -553,7 +577,7 @@ def validate_fixture(work):
         paths = interpret_paths(cmds, "fx_gen", [StringVal(inp), StringVal("OUT")] + [StringVal(x) for x in extra], {"CMINX_EXECUTABLE": [StringVal(rec)]},
                                 lambda x: BoolVal(os.path.isdir(x.as_string())) if is_string_value(x) else BoolVal(False))
         got = None
-        for (pc, calls, envlog) in paths:
+        for (pc, calls, envlog, effects) in paths:
             s_ = Solver()
             s_.add(pc)
             for ev in envlog:
@@ -611,6 +635,8 @@ def replay_cmake(work, vals, isd, k, actions=()):
             return False, "the model names a file outside the replay directory (%r): not replayed" % pth
         if kind == "exists":
             if flag: content.setdefault(full, "")
+        elif kind == "glob":
+            if flag: content.setdefault(full.replace("*", "x").replace("?", "y"), "stale")
         elif flag:
             line = sample_of_regex(rgx) if rgx is not None else "x"
             if line is None:
@@ -619,6 +645,19 @@ def replay_cmake(work, vals, isd, k, actions=()):
     for full, text in content.items():
         os.makedirs(os.path.dirname(full), exist_ok=True)
         open(full, "w").write(text)
+    def snapshot():
+        out = {}
+        for r_, ds_, fs_ in os.walk(base):
+            for f_ in fs_:
+                p_ = os.path.join(r_, f_)
+                if not os.path.islink(p_):
+                    out[p_] = open(p_, "rb").read()
+        return out
+    before = snapshot()
     argv, rc = run_cmake(work, inp, vals["output"], extra, cwd=base)
+    after = snapshot()
     good = spec_concrete(argv, inp, vals["output"], extra, isd)
-    return (not good), "real cmake passed argv %r (rc %s)%s" % (argv, rc, (" with files " + repr(sorted(content))) if content else "")
+    changed = sorted(set(before) ^ set(after)) + sorted(p_ for p_ in before if p_ in after and before[p_] != after[p_])
+    # (the stand-in executable only records its argv outside this directory: whatever changed here was done by the CMake function itself)
+    return (not good) or bool(changed), "real cmake passed argv %r (rc %s)%s%s" % (argv, rc, (" with files " + repr(sorted(content))) if content else "",
+                                                                               ("; the function itself changed " + repr(changed)) if changed else "")
